@@ -147,5 +147,43 @@ func sweep(g *gen) []*Script {
 			}
 		}
 	}
+	// feature axis: RequestBackChannels x what the SDP offers x which medias are set up x transport,
+	// then the server goes silent after PLAY (or closes): the session must end with an error whenever
+	// the client reads at least one media
+	std := MediaSpec{Control: "trackID=0", Codec: "h264"}
+	std2 := MediaSpec{Control: "trackID=1", Codec: "opus"}
+	back := MediaSpec{Control: "trackID=9", Codec: "pcmu", Back: true}
+	shapes := []struct {
+		ms    []MediaSpec
+		setup []int
+	}{
+		{[]MediaSpec{std, std2}, []int{0, 1}},
+		{[]MediaSpec{back}, []int{0}},
+		{[]MediaSpec{std, back}, []int{0, 1}},
+		{[]MediaSpec{std, back}, []int{0}},
+		{[]MediaSpec{std, back}, []int{1}},
+		{[]MediaSpec{back, std}, []int{0, 1}},
+	}
+	for _, bc := range []bool{false, true} {
+		for _, sh := range shapes {
+			for _, proto := range []int{0, 1, 3} {
+				for _, fk := range []string{"silent", "close"} {
+					sc := &Script{Name: "sweep-features-" + fk, Cfg: Cfg{Proto: proto, BackCh: bc, RTms: g.rt, UDPms: 250}, Medias: sh.ms}
+					sc.Prog = []Call{{Api: "describe"}}
+					for _, mi := range sh.setup {
+						sc.Prog = append(sc.Prog, Call{Api: "setup", Media: mi})
+					}
+					sc.Prog = append(sc.Prog, Call{Api: "play"})
+					if fk == "silent" {
+						sc.Prog = append(sc.Prog, Call{Api: "sleep", Ms: 2200, Silent: true}, Call{Api: "pause"})
+					} else {
+						sc.React = []Reaction{{M: "PLAY", N: 1, Acts: []Action{{Kind: "resp"}, {Kind: "sleep", Ms: 50}, {Kind: "close"}}, Abs: "?"}}
+						sc.Prog = append(sc.Prog, Call{Api: "sleep", Ms: 300}, Call{Api: "pause"})
+					}
+					out = append(out, sc)
+				}
+			}
+		}
+	}
 	return out
 }
